@@ -24,6 +24,7 @@ import (
 	"strconv"
 	"strings"
 	"sync"
+	"unicode/utf8"
 	"unique"
 )
 
@@ -105,6 +106,7 @@ func normalizeHeaderValue(field, value string) string {
 	if value == "" {
 		return ""
 	}
+	value = escapeObsText(value)
 
 	initNormalizationHeader()
 	switch {
@@ -138,6 +140,32 @@ func normalizeHeaderValue(field, value string) string {
 	default:
 		return value
 	}
+}
+
+// escapeObsText replaces every byte of value that is not part of a valid UTF-8
+// sequence (obs-text, RFC 9110 §5.5) by NUL followed by two hex digits. The
+// resolved values are kept in a JSON index and lower-cased, both of which turn
+// any such byte into U+FFFD, so values differing only there would select each
+// other's responses. A literal NUL is escaped too, which keeps the mapping
+// one-to-one.
+func escapeObsText(value string) string {
+	if utf8.ValidString(value) && strings.IndexByte(value, 0) < 0 {
+		return value
+	}
+	const hexdigits = "0123456789abcdef"
+	var b strings.Builder
+	for i := 0; i < len(value); {
+		r, size := utf8.DecodeRuneInString(value[i:])
+		if (r == utf8.RuneError && size == 1) || r == 0 {
+			b.WriteByte(0)
+			b.WriteByte(hexdigits[value[i]>>4])
+			b.WriteByte(hexdigits[value[i]&0x0f])
+		} else {
+			b.WriteString(value[i : i+size])
+		}
+		i += size
+	}
+	return b.String()
 }
 
 // normalizeOrderInsensitive normalizes comma-separated values where order doesn't matter.
